@@ -151,7 +151,7 @@ pub(crate) mod kani_verif {
         kani::cover!(len >= 4 && total > len, "corrupted level word reachable");
         kani::cover!(len >= 4 && total <= len && len - total < N && copy[0] != 0, "layout fits but the MAC is cut short: reachable");
     }
-    // @h name=c10_expand_untrusted_24 props=C10,C11! tier=quick kind=proved cfg=w8 timeout=900 funcs=hss_expand_aux_data contract="same contract for every buffer of length 0..24 and every content (layouts without a cached level: header + MAC; truncated, padded and corrupted level words)"
+    // @h name=c10_expand_untrusted_24 props=C10,C11 tier=thorough kind=proved cfg=w8 timeout=2400 funcs=hss_expand_aux_data contract="same contract for every buffer of length 0..24 and every content (layouts without a cached level: header + MAC; truncated, padded and corrupted level words)"
     #[kani::proof]
     #[kani::stub(zeroize::optimization_barrier, no_barrier)]
     #[kani::stub(<[u8; 32] as tinyvec::Array>::default, fast_default)]
